@@ -1,6 +1,7 @@
 import MokapotVerif.Wire
 import MokapotVerif.Model.Digest
 import MokapotVerif.Model.DigestPat
+import MokapotVerif.Model.DigestZero
 /-!
 Driver glue for `Model/Digest.lean`.
 
@@ -20,6 +21,14 @@ General patterns (`Model/DigestPat.lean`): a class is an atom `p<chars>` (`[char
     sitesp     [cls …] laPos laCls <seq>                       → [0 3 6]
     digestp    [cls …] laPos laCls <seq> mc lo hi clip semi    → [qPEP …]       (model)
     digestspecp [cls …] laPos laCls <seq> mc lo hi clip semi   → [qPEP …]       (enumeration of the spec, all bounds)
+
+Zero-width rules (`Model/DigestZero.lean`): `lbPos lbCls laPos laCls` = `(?<=lbCls)` / `(?<!lbCls)` and
+`(?=laCls)` / `(?!laCls)` (an absent assertion = the negative one on the empty class `p`):
+
+    sitesz      lbPos lbCls laPos laCls <seq>                      → [0 0 2 4]
+    digestz     lbPos lbCls laPos laCls <seq> mc lo hi clip semi   → [qPEP …]   (model)
+    digestspecz lbPos lbCls laPos laCls <seq> mc lo hi clip semi   → [qPEP …]   (enumeration of `DigestSpecZ`: the code as it is)
+    digestspeczi …                                                 → [qPEP …]   (enumeration of `DigestSpecZI`: the property text)
 -/
 namespace Mk.Ops
 open Mk V
@@ -105,6 +114,32 @@ def digestPArgs (f : EnzymeP → List Char → Nat → Nat → Nat → Bool → 
       some (ofList ofRes (f e seq mc lo hi clip semi))
   | _ => none
 
+def toZero? (lbPos lb laPos la : V) : Option EnzymeZ := do
+  let lbPos ← toBool? lbPos
+  let lb ← toClass? lb
+  let laPos ← toBool? laPos
+  let la ← toClass? la
+  some ⟨lbPos, lb, laPos, la⟩
+
+def opSitesZ : List V → Option V
+  | [lbPos, lb, laPos, la, s] => do
+      let e ← toZero? lbPos lb laPos la
+      let seq ← toRes? s
+      some (ofList ofNat (cleavageSitesZ e seq))
+  | _ => none
+
+def digestZArgs (f : EnzymeZ → List Char → Nat → Nat → Nat → Bool → Bool → List Pep) : List V → Option V
+  | [lbPos, lb, laPos, la, s, mc, lo, hi, clip, semi] => do
+      let e ← toZero? lbPos lb laPos la
+      let seq ← toRes? s
+      let mc ← toNat? mc
+      let lo ← toNat? lo
+      let hi ← toNat? hi
+      let clip ← toBool? clip
+      let semi ← toBool? semi
+      some (ofList ofRes (f e seq mc lo hi clip semi))
+  | _ => none
+
 end Mk.Ops.Digest
 
 namespace Mk.Ops
@@ -114,6 +149,8 @@ def digestOps : List (String × (List V → Option V)) :=
   [("sites", opSites), ("digest", opDigest), ("digestspec", opDigestSpec),
    ("digestspec0", Digest.opDigestSpec0), ("digestdefault", Digest.opDigestDefault),
    ("sitesp", Digest.opSitesP), ("digestp", Digest.digestPArgs digestP),
-   ("digestspecp", Digest.digestPArgs specListP)]
+   ("digestspecp", Digest.digestPArgs specListP),
+   ("sitesz", Digest.opSitesZ), ("digestz", Digest.digestZArgs digestZ),
+   ("digestspecz", Digest.digestZArgs specListZ), ("digestspeczi", Digest.digestZArgs specListZI)]
 
 end Mk.Ops
